@@ -63,6 +63,12 @@ CHECKS.update({
    note="Trusted base: go/parser, go/printer, go/scanner, go/types. Constants of string enums are not counted as 'functions, methods or variables'. JSON behaviour with/without --extra-imports is covered by declaration equality (the JSON methods are textually identical)."),
 })
 
+CHECKS.update({
+ "C18": dict(cat="fault_enumeration", tech="process monitor over real CLI runs under enumerated faults: exit status, stdout, stderr, tree snapshot before/after (outputs pre-seeded with sentinels), CPU rlimit; strace syscall-fault injection; in-process DoFile+Sources under recover",
+   text="Every fault kind (unknown type, $ref to missing definition/file/unsupported scheme/non-definition pointer/missing definition in another file/unparsable file, empty enum, non-primitive enum values, integer enum with string, null subschema) is injected at sampled property/items/definition positions at any depth (also inside allOf/anyOf branches, JSON and YAML, file and stdout output) of random valid schemas whose base run is accepted; plus byte-level faults, malformed flags, bad files, strace-injected write errors and the in-process twin. A must-fail run has to exit non-zero with a diagnostic, print nothing on stdout and create/modify/remove nothing; no run may panic, die by signal or hit the CPU limit.", ref="§4 C18",
+   note="Trusted base: the tree snapshot (SHA-256), os/exec process state, strace. Faults are sampled per base schema, not exhaustively enumerated over all positions; 'must fail' for byte-level faults only when an independent decoder cannot decode a first JSON value. Runs as root, so permission faults are replaced by directory/symlink inputs and strace EACCES."),
+})
+
 NOT_YET = {}
 
 def main():
